@@ -400,7 +400,9 @@ func TestC01(t *testing.T) {
 	// the embedded container's API): the tool rejects them today (excluded, C11/C13 own that); should one ever be accepted,
 	// C01 still demands code that compiles
 	for _, g := range []string{"ang", "Val", "x1", "GetA"} {
-		for _, other := range []string{"Must" + g, g + "InContext", "Must" + g + "InContext", "Must" + strings.ToUpper(g[:1]) + g[1:], "Get", "GetParam", "Container"} {
+		for _, other := range []string{"Must" + g, g + "InContext", "Must" + g + "InContext", "Must" + strings.ToUpper(g[:1]) + g[1:], "Get", "GetParam", "Container",
+			// the unexported helper methods the template declares on the container type
+			"_getEnv", "_getEnvInt", "_paramTodo", "_callProvider", "_concatenateChunks"} {
 			for v := 0; v < 4; v++ {
 				idx++
 				if !ev.Mine(idx) {
